@@ -134,6 +134,7 @@ type c08Obs struct {
 	enters        []int64 // global sequence numbers of function entries
 	markerSeq     int64   // sequence number taken after the cancellation was issued/observed (0: never)
 	markerAt      time.Time
+	startAt       time.Time
 	doneAt        time.Time
 	fallbackCalls int64
 	blockedUnseen bool // a blocking attempt never observed the cancellation
@@ -289,12 +290,14 @@ func c08Run(cs c08Case, twin bool) *c08Obs {
 		o.doneIdentity = e.Attempts() == 1+e.Retries()+e.Hedges()
 	})
 	var ar failsafe.ExecutionResult[int]
+	arReady := make(chan struct{}) // the async runner may reach a listener before the caller has the ExecutionResult
 	doCancel := func() {
 		switch cs.Source {
 		case "ctx":
 			cancelCtx()
 			mark()
 		case "async":
+			<-arReady
 			ar.Cancel()
 			mark()
 		}
@@ -304,9 +307,11 @@ func c08Run(cs c08Case, twin bool) *c08Obs {
 		doCancel()
 	}
 	ctrlDone := make(chan struct{})
+	o.startAt = time.Now()
 	if cs.Async {
 		ar = ex.GetWithExecutionAsync(fn)
 	}
+	close(arReady)
 	if !twin && cs.Trigger != "onfailure" && (cs.Source == "ctx" && cs.Trigger != "before" || cs.Source == "async") {
 		go func() {
 			defer close(ctrlDone)
@@ -338,7 +343,7 @@ func c08Run(cs c08Case, twin bool) *c08Obs {
 	<-ctrlDone
 	// snapshot under the lock: watcher goroutines may still deliver a (late, hence ignored) marker afterwards
 	mu.Lock()
-	snap := &c08Obs{res: o.res, err: o.err, enters: append([]int64(nil), o.enters...), markerSeq: o.markerSeq, markerAt: o.markerAt, doneAt: o.doneAt,
+	snap := &c08Obs{res: o.res, err: o.err, enters: append([]int64(nil), o.enters...), markerSeq: o.markerSeq, markerAt: o.markerAt, startAt: o.startAt, doneAt: o.doneAt,
 		fallbackCalls: atomic.LoadInt64(&o.fallbackCalls), blockedUnseen: o.blockedUnseen, doneStats: o.doneStats, doneIdentity: o.doneIdentity}
 	mu.Unlock()
 	for _, s := range snap.enters {
@@ -367,7 +372,7 @@ func checkC08(rep *vk.Report) {
 		c08Scenario(rep, idx, "C08")
 	})
 	failsafe.VerifSetYield(nil)
-	cancelStress(rep, "C08", 50000000, scale(rep, 30000, 1500000))
+	cancelStress(rep, "C08", 50000000, scale(rep, 30000, 500000))
 	reportYields(rep)
 	for _, cl := range []string{"landed_inside_function", "landed_in_retry_delay", "landed_in_policy_wait", "landed_at_function_exit", "landed_in_failure_listener", "landed_after_completion", "landed_before_start"} {
 		rep.Require(cl, 10)
@@ -445,6 +450,12 @@ func c08Scenario(rep *vk.Report, idx int, prop string) {
 		wait := c08LongDelay
 		if strings.Contains(cs.Comp, "rl!") {
 			wait = time.Second
+		}
+		// every wait of the scenario (3s retry/hedge delay, 1s limiter wait, 3s bulkhead wait) starts after the call began and
+		// would end on its own no earlier than start+wait: an execution that completes at or after that instant waited it out
+		if total := o.doneAt.Sub(o.startAt); o.markerSeq != 0 && total >= wait {
+			viol("waited-out-the-delay", fmt.Sprintf("execution was cancelled %v after it began but completed only %v after it began; the wait it was in (%v) would have ended on its own by then", o.markerAt.Sub(o.startAt), total, wait))
+			return
 		}
 		if late := o.doneAt.Sub(o.markerAt); o.markerSeq != 0 && late >= wait {
 			viol("waited-out-the-delay", fmt.Sprintf("execution completed %v after the cancellation; the wait it was in is %v", late, wait))
